@@ -2,14 +2,52 @@
    Specification: decode (Arrow/Arr.v: the logical content by the rules of the format, compositional
    on whole arrays) and present (De/Present.v: what a self-describing read shows for a logical value
    of a field).  Implementation model: read (De/Reader.v: index arithmetic per accessor). *)
-From Verif Require Import Reader Reader_proofs.
+From Verif Require Import Reader Reader_proofs Decode_proofs.
 
 (* Full-strength statement (kept visible): evaluated on every case of the check as the
-   specification oracle RunC02.oracle (all data types); proved below for the leaf kinds. *)
+   specification oracle RunC02.oracle (all data types); proved below (C02_full_proved) for every
+   data type and any nesting depth, under one side condition: the value offsets of a dictionary
+   have fewer than 2^63 entries (addressable; the reader converts keys through i64). *)
 Definition C02_full : Prop :=
   forall f a lvs i lv, wf_arr false f a = true -> construct a = true ->
     decode a = Some lvs -> nth_error lvs i = Some lv ->
     read a i = of_option (present f lv).
+
+Theorem C02_full_proved : forall f a lvs i lv,
+  wf_arr false f a = true -> construct a = true -> addressable a = true ->
+  decode a = Some lvs -> nth_error lvs i = Some lv ->
+  read a i = of_option (present f lv).
+Proof. intros f a lvs i lv Hwf Hc Ha. exact (read_decode_full a f Hwf Hc Ha lvs i lv). Qed.
+
+(* layout irrelevance, all data types: two well-formed views of one field with the same logical
+   content (different validity bit offsets, first offsets, unreferenced buffer parts, child
+   lengths, garbage under nulls) read the same at every row *)
+Corollary C02_layout_irrelevant : forall f a a' lvs i lv,
+  wf_arr false f a = true -> construct a = true -> addressable a = true ->
+  wf_arr false f a' = true -> construct a' = true -> addressable a' = true ->
+  decode a = Some lvs -> decode a' = Some lvs -> nth_error lvs i = Some lv ->
+  read a i = read a' i.
+Proof.
+  intros f a a' lvs i lv W C A W' C' A' D D' Hx.
+  rewrite (read_decode_full a f W C A lvs i lv D Hx), (read_decode_full a' f W' C' A' lvs i lv D' Hx). reflexivity.
+Qed.
+
+(* the number of rows of the logical content is the length of the view *)
+Theorem C02_length : forall a lvs, decode a = Some lvs -> length lvs = arr_len a.
+Proof. exact decode_length. Qed.
+
+(* the container steps, each usable on its own (children need only read correctly) *)
+Theorem C02_list_step : forall k k' v offs m elems cf nm nl,
+  reads_ok cf elems -> reads_ok (mkField nm (DList k' cf) nl) (AList k v offs m elems).
+Proof. exact read_decode_list. Qed.
+Theorem C02_struct_step : forall len v fields fs nm nl,
+  Forall2 (fun sf (mc : Meta * Arr) => fname' sf = m_name (fst mc) /\ reads_ok sf (snd mc)) fs fields ->
+  reads_ok (mkField nm (DStruct fs) nl) (AStruct len v fields).
+Proof. exact read_decode_struct. Qed.
+Theorem C02_union_step : forall types offs fields ufs nm nl,
+  Forall2 UR ufs fields -> consecutive 0 fields = true ->
+  reads_ok (mkField nm (DUnion ufs) nl) (AUnion types offs fields).
+Proof. exact read_decode_union. Qed.
 
 (* nulls exactly where the validity bitmap says so, whatever the bit offset and whatever is stored
    below a null slot *)
@@ -66,5 +104,28 @@ Example C02_example :
   map (read a) [0; 1; 2; 3] = [Ok (RStr (b "hi")); Ok RNone; Ok (RStr (b "!")); Ok (RStr (b "ZZ"))].
 Proof. vm_compute. split; reflexivity. Qed.
 
+(* non-vacuity of the full theorem: a nullable list of structs holding a dictionary column and a
+   dense union, child arrays longer than needed, first offset 1, validity at bit offset 3 *)
+Example C02_full_example :
+  let keys := APrim (PInt I8) None [1; 0; 1; 1]%Z in
+  let dict := ADict keys (ABytes BUtf8 None [0; 1; 3]%Z (b "xyz")) in
+  let un := AUnion [0; 1; 1; 0]%Z [0; 0; 1; 1]%Z
+                   [(0%Z, {| m_name := b "N"; m_nullable := true |}, ANull 2);
+                    (1%Z, {| m_name := b "I"; m_nullable := false |}, APrim (PInt I16) None [7; 8; 9]%Z)] in
+  let st := AStruct 4 None [({| m_name := b "d"; m_nullable := false |}, dict); ({| m_name := b "u"; m_nullable := false |}, un)] in
+  let a := AList KList (Some {| bm_off := 3; bm_data := [40]%N |}) [1; 3; 3; 4]%Z {| m_name := b "element"; m_nullable := false |} st in
+  let f := mkField (b "c") (DList KList (mkField (b "element")
+             (DStruct [mkField (b "d") (DDict I8 BUtf8) false;
+                       mkField (b "u") (DUnion [(0%Z, mkField (b "N") DNull true); (1%Z, mkField (b "I") (DPrim (PInt I16)) false)]) false]) false)) true in
+  wf_arr false f a = true /\ construct a = true /\ addressable a = true /\
+  map (read a) [0; 1; 2] =
+    [Ok (RSeq [RMap [(RStr (b "d"), RStr (b "x")); (RStr (b "u"), REnum (RStr (b "I")) (RInt 7))];
+               RMap [(RStr (b "d"), RStr (b "yz")); (RStr (b "u"), REnum (RStr (b "I")) (RInt 8))]]);
+     Ok RNone;
+     Ok (RSeq [RMap [(RStr (b "d"), RStr (b "yz")); (RStr (b "u"), REnum (RStr (b "N")) RUnit)]])].
+Proof. vm_compute. repeat split; reflexivity. Qed.
+
+Print Assumptions C02_full_proved.
+Print Assumptions C02_layout_irrelevant.
 Print Assumptions C02_prim_partial.
 Print Assumptions C02_bytes_partial.
